@@ -100,7 +100,7 @@ def _guarded_division(t):
             w = strip_conv(where)
             ok = False
             if w[0] == "cmp" and w[1] in ("!=", ">") and w[3] == ("const", 0):
-                ok = show(strip_conv(w[2]), 500) == show(strip_conv(den), 500)
+                ok = (strip_conv(w[2])) == (strip_conv(den))
             if not ok:
                 problems.append(
                     "the where= guard is not 'denominator != 0' "
@@ -120,8 +120,7 @@ def _guarded_division(t):
                 and a in (("const", 1), ("const", 1.0)):
             b = strip_conv(b)
             if b[0] == "bin" and b[1] == "/":
-                ok = show(strip_conv(cond[2]), 500) == show(
-                    strip_conv(b[3]), 500)
+                ok = (strip_conv(cond[2])) == (strip_conv(b[3]))
                 return b[2], b[3], [] if ok else [
                     "np.where guard does not test the denominator"]
     return None
@@ -567,7 +566,7 @@ def _check_fdr2qvalue(ctx, f):
             for d in outside)
         prev_end = bool(inside) and all(
             d.kind == "assign"
-            and show(T.of(d.value), 400) == show(hi, 400)
+            and (T.of(d.value)) == (hi)
             and not _guards(loop, d.node)
             for d in inside)
         off_ok = zero and prev_end
@@ -631,7 +630,7 @@ def _check_running_min(ctx, f, du, T, loop, st, grp_t, p_fdr, p_tot):
                     if tt[1] in (">", ">="):
                         a, b = b, a
                     # a < b holds on this branch iff pol
-                    if pol and show(a, 400) == show(v, 400) and \
+                    if pol and (a) == (v) and \
                             _refers_to(b, acc):
                         lowered = True
             cand = v
@@ -651,13 +650,13 @@ def _check_running_min(ctx, f, du, T, loop, st, grp_t, p_fdr, p_tot):
         basef, sel = g[1], g[2]
         bf = strip_conv(basef)
         in_group = (bf[0] == "sub" and strip_conv(bf[1]) == ("param", p_fdr)
-                    and show(bf[2], 400) == show(grp_t, 400))
+                    and (bf[2]) == (grp_t))
         sc = np_call(sel)
         if in_group and sc and sc[0] == "argmax" and sc[1]:
             tg = strip_conv(sc[1][0])
             ok_sel = (tg[0] == "sub"
                       and strip_conv(tg[1]) == ("param", p_tot)
-                      and show(tg[2], 400) == show(grp_t, 400))
+                      and (tg[2]) == (grp_t))
             if not ok_sel:
                 why = ("argmax is not taken over the running totals of the "
                        f"same group: {show(tg, 100)}")
